@@ -9,11 +9,11 @@ func init() {
 			"(G6/G16) both are sorted afterwards by a comparator that is total on the key type (TripID.Less consults every field); (ORDER) alerts are tail-appended once per entity in index order and never sorted. " +
 			"Not decided: commutativity of the loop body for conflicting duplicates (excluded by the property).",
 		Rules: []Rule{
-			{Name: "MERGE", Doc: "merge discipline, uniqueness, alert order", MinInstances: 10, Run: runMergeRules},
-			{Name: "G6", Doc: "map-built output sorted by a total key comparator", MinInstances: 2, Run: func(c *Ctx) {
+			{Name: "MERGE", Doc: "merge discipline, uniqueness, alert order", MinInstances: 7, Run: runMergeRules},
+			{Name: "G6", Doc: "map-built output sorted by a total key comparator", MinInstances: 1, Run: func(c *Ctx) {
 				runG6(c, c.anchors("gtfs:ParseRealtime"))
 			}},
-			{Name: "GUARD", Doc: "entity parsers return nil only for absent wire fields", MinInstances: 3, Run: runParserGuards},
+			{Name: "GUARD", Doc: "entity parsers return nil only for absent wire fields", MinInstances: 2, Run: runParserGuards},
 		},
 	})
 	register(&PropSpec{
@@ -22,8 +22,8 @@ func init() {
 			"(GUARD) the entity parsers return a nil trip/vehicle only when the wire field is absent, so every expression of an association reaches the tables. " +
 			"Equality of the content reached through the links with the list entries follows from the copies being taken after the links are stored (checked) plus C07. Not decided: feeds with several vehicles per trip (excluded).",
 		Rules: []Rule{
-			{Name: "LINK", Doc: "trip<->vehicle link discipline", MinInstances: 8, Run: runLinkRules},
-			{Name: "GUARD", Doc: "entity parsers return nil only for absent wire fields", MinInstances: 3, Run: runParserGuards},
+			{Name: "LINK", Doc: "trip<->vehicle link discipline", MinInstances: 5, Run: runLinkRules},
+			{Name: "GUARD", Doc: "entity parsers return nil only for absent wire fields", MinInstances: 2, Run: runParserGuards},
 		},
 	})
 }
